@@ -183,7 +183,7 @@ def check_clause(ctx, rule, fnrec, inst, props, required, desc, why, line=None):
         ctx.violation(rule, fnrec["fn"], inst, f"cannot decide `{desc}`: too many interacting conditions ({model}) — shape not understood", file=fnrec["file"], line=line)
         return False
     ctx.violation(rule, fnrec["fn"], inst,
-                  f"the site is reachable without `{desc}`: the conditions on the path are also satisfied by the assignment [{model_str(model)}] — {why}", file=fnrec["file"], line=line)
+                  f"the site is reachable without `{desc}`: the conditions on the path are also satisfied by the assignment [{model_str(model, hide={a for a, v in model.items() if not v and a not in prop_atoms(required)})}] — {why}", file=fnrec["file"], line=line)
     return False
 
 
